@@ -19,7 +19,7 @@ func genFmtCase(rt *rapid.T, fc *fmtConfig, vc *valConfig, routes []string, chao
 				c.Args = append(c.Args, vc.genVal(rt, 0, false))
 			}
 		}
-		return c
+		return tame(c)
 	}
 	n := rapid.IntRange(0, 4).Draw(rt, "ndirs")
 	for i := 0; i < n; i++ {
@@ -44,6 +44,95 @@ func genFmtCase(rt *rapid.T, fc *fmtConfig, vc *valConfig, routes []string, chao
 	}
 	if rapid.IntRange(0, 14).Draw(rt, "extra") == 0 {
 		c.Args = append(c.Args, vc.genVal(rt, 0, false)) // EXTRA
+	}
+	return tame(c)
+}
+
+// tame bounds the output size of a case: a width (literal, or an integer
+// operand that a '*' may consume) is applied to every element of a byte
+// slice or container, so width x elements is kept below ~20 MB by
+// shortening long byte slices and big integers. (A matter of run time only.)
+func tame(c *FmtCase) *FmtCase {
+	w := int64(1)
+	f := c.Format()
+	num := int64(0)
+	for i := 0; i <= len(f); i++ {
+		if i < len(f) && f[i] >= '0' && f[i] <= '9' && num < 1e12 {
+			num = num*10 + int64(f[i]-'0')
+			continue
+		}
+		if num > w && num <= 10000009 {
+			w = num
+		}
+		num = 0
+	}
+	elems := int64(1)
+	var walk func(v *Val, top bool)
+	walk = func(v *Val, top bool) {
+		if v == nil {
+			return
+		}
+		switch v.K {
+		case "bytes", "nbytes", "sb", "psb":
+			elems += int64(len(v.S)) + 64
+		}
+		if top && c.HasRaw {
+			// any integer-like operand may feed a '*'
+			for _, x := range []int64{v.I, v.J} {
+				if x < 0 {
+					x = -x
+				}
+				if x > w && x <= 1000000 {
+					w = x
+				}
+			}
+		}
+		elems += int64(len(v.Sub))
+		for _, s := range v.Sub {
+			walk(s, false)
+		}
+		for _, op := range v.Ops {
+			elems += int64(len(op.S))/8 + 1
+			for _, a := range op.Args {
+				walk(a, false)
+			}
+		}
+		if v.Pr != nil {
+			for _, a := range v.Pr.Args {
+				walk(a, false)
+			}
+		}
+	}
+	for _, a := range c.Args {
+		walk(a, true)
+	}
+	if w*elems <= 4e6 {
+		return c
+	}
+	// shorten: byte slices to 16 bytes, containers to 3 elements
+	var cut func(v *Val)
+	cut = func(v *Val) {
+		if v == nil {
+			return
+		}
+		switch v.K {
+		case "bytes", "nbytes":
+			if len(v.S) > 16 {
+				v.S, v.T = B("short"), B("shrot")
+			}
+		}
+		if len(v.Sub) > 3 && v.K != "structA" && v.K != "structB" {
+			v.Sub = v.Sub[:3]
+			if len(v.Keys) > 3 {
+				v.Keys = v.Keys[:3]
+			}
+		}
+		for _, s := range v.Sub {
+			cut(s)
+		}
+	}
+	for _, a := range c.Args {
+		cut(a)
 	}
 	return c
 }
